@@ -163,6 +163,16 @@ direct("p_arr0", arr(u8, 0)); direct("p_arr3", arr(i32, 3)); direct("p_arr32", a
 direct("p_mapstru8", bmap(string, u8)); direct("p_mapu8str", bmap(u8, string)); direct("p_maptupkey", bmap(tup(u8, boolean), seq(u8)))
 direct("p_umap", umap(string, i32)); direct("p_umapnested", umap(u8, useq(u8)))
 direct("p_boxed", boxed(u64))
+# types whose serde impls ask the format whether it is human readable: the compact forms (std::net as octet tuples / enums of them)
+_oct4 = "STup(<<" + ", ".join(['SI("u8")'] * 4) + ">>)"
+_oct16 = "STup(<<" + ", ".join(['SI("u8")'] * 16) + ">>)"
+_s4 = f'STup(<<{_oct4}, SI("u16")>>)'
+_s6 = f'STup(<<{_oct16}, SI("u16")>>)'
+direct("p_ipv4", E("SIpv4", _oct4)); direct("p_ipv6", E("SIpv6", _oct16))
+direct("p_ipaddr", E("SIpAddr", f'SEnum("ext", <<>>, <<>>, <<SVN({nm("V4")}, {_oct4}), SVN({nm("V6")}, {_oct16})>>)'))
+direct("p_sockv4", E("SSockV4", _s4))
+direct("p_sockaddr", E("SSockAddr", f'SEnum("ext", <<>>, <<>>, <<SVN({nm("V4")}, {_s4}), SVN({nm("V6")}, {_s6})>>)'))
+direct("p_readable", E("Readable", "SFalse"))
 
 # structs
 US = unit_struct("US")
@@ -223,7 +233,7 @@ FLU = struct("FLU", [F("a", u8), F("inner", InU, flatten=True)])
 RS_HEAD = """//! GENERATED by gen/serde2rs.py - do not edit.  The serde type family of property C17: real serde derives,
 //! the structural projection `Abs`, and the registry keyed by the names of spec/SerdeTable.tla.
 #![allow(non_snake_case, clippy::all)]
-use crate::sbridge::{sdecode_report, exercise, DispStr, RefBytes, SBytes, UMap, USeq};
+use crate::sbridge::{sdecode_report, exercise, DispStr, Readable, RefBytes, SBytes, SIpAddr, SIpv4, SIpv6, SSockAddr, SSockV4, UMap, USeq};
 use crate::types::Abs;
 use rand::{rngs::StdRng, Rng};
 use serde::{Deserialize, Serialize};
